@@ -3,7 +3,6 @@
 use crate::execution::chunk::DataChunk;
 use crate::execution::operators::OperatorError;
 use crate::execution::pipeline::{ChunkSizeHint, PushOperator, Sink};
-use crate::execution::selection::SelectionVector;
 
 /// Push-based limit operator.
 ///
@@ -56,9 +55,8 @@ impl PushOperator for LimitPushOperator {
             // Need to truncate chunk
             self.passed += remaining;
 
-            // Create selection for first `remaining` rows
-            let selection = SelectionVector::new_all(remaining);
-            let truncated = chunk.filter(&selection);
+            // Keep the first `remaining` logical rows
+            let truncated = chunk.slice(0, remaining);
 
             sink.consume(truncated)?;
             Ok(false) // Limit reached
@@ -131,9 +129,7 @@ impl PushOperator for SkipPushOperator {
             // Skip first `remaining_to_skip` rows, pass the rest
             self.skipped = self.skip;
 
-            let start = remaining_to_skip;
-            let selection = SelectionVector::from_predicate(chunk_len, |i| i >= start);
-            let passed = chunk.filter(&selection);
+            let passed = chunk.slice(remaining_to_skip, chunk_len - remaining_to_skip);
 
             sink.consume(passed)
         }
@@ -186,9 +182,7 @@ impl PushOperator for SkipLimitPushOperator {
 
             // Partial skip
             self.skip.skipped = self.skip.skip;
-            let start = remaining_to_skip;
-            let selection = SelectionVector::from_predicate(chunk_len, |i| i >= start);
-            let passed = chunk.filter(&selection);
+            let passed = chunk.slice(remaining_to_skip, chunk_len - remaining_to_skip);
 
             return self.limit.push(passed, sink);
         }
